@@ -169,15 +169,9 @@ func main() {
 	for b := 0; b < batches; b++ {
 		lo, hi := b*nCases/batches, (b+1)*nCases/batches
 		tb := time.Now()
-		run.Parallel(hi-lo, 12, func(c0 *h.Case) {
-			c := c0
-			if run.OnlyCase < 0 {
-				c = run.NewCase(c0.Idx + lo) // global case index (replay files carry it)
-			}
-			dispatch(c)
-		})
+		run.ParallelRange(lo, hi-lo, 12, dispatch)
 		if run.OnlyCase >= 0 {
-			break
+			continue
 		}
 		tl := time.Now()
 		r := globalLedger(base, fmt.Sprintf("after batch %d", b+1), b == 0 || b == batches-1)
